@@ -103,7 +103,9 @@ def comparam_ref(key: List[str], layer_idx: int) -> str:
     if name == "cp1":
         # every third layer leaves the value out (the default of the specification applies); the owner is told by the DESC
         v1 = "" if layer_idx % 3 == 0 else str(1000 * layer_idx + (1 if proto else 0))
-        val = f"<SIMPLE-VALUE>{v1}</SIMPLE-VALUE><DESC><p>owner {layer_idx}</p></DESC>"
+        # (protocol-specific ones in the ODX 2.0.0 spelling VALUE)
+        vt = "VALUE" if proto else "SIMPLE-VALUE"
+        val = f"<{vt}>{v1}</{vt}><DESC><p>owner {layer_idx}</p></DESC>"
     else:
         # odd layers leave the second sub-value out (the default of the specification applies)
         second = "" if layer_idx % 2 else str(200 + layer_idx)
@@ -222,14 +224,14 @@ def process(cfgs: List[Dict[str, Any]]) -> Dict[str, Any]:
         except OdxError as e:
             db, exc = None, e
         except Exception as e:  # noqa: BLE001
-            fail("C09", "load_raises_foreign_exception", cfg, {"exc": type(e).__name__, "msg": str(e)[:200]})
+            fail("*", "load_raises_foreign_exception", cfg, {"exc": type(e).__name__, "msg": str(e)[:200]})
             continue
         if cfg["clash"]:
             if exc is None:
                 fail("C09", "clash_not_reported", cfg, {})
             continue
         if exc is not None:
-            fail("C09", "spurious_load_error", cfg, {"exc": type(exc).__name__, "msg": str(exc)[:200]})
+            fail("*", "spurious_load_error", cfg, {"exc": type(exc).__name__, "msg": str(exc)[:200]})
             continue
         n = len(cfg["types"])
         layers = {i: db.diag_layers[f"L{i}"] for i in range(1, n + 1)}
@@ -388,7 +390,7 @@ def process(cfgs: List[Dict[str, Any]]) -> Dict[str, Any]:
         try:
             db.refresh()
         except Exception as e:  # noqa: BLE001
-            fail("C09", "refresh_raises", cfg, {"exc": type(e).__name__, "msg": str(e)[:200]})
+            fail("*", "refresh_raises", cfg, {"exc": type(e).__name__, "msg": str(e)[:200]})
             continue
         st["refreshes"] += 1
         layers = {i: db.diag_layers[f"L{i}"] for i in range(1, n + 1)}
@@ -408,7 +410,7 @@ def process(cfgs: List[Dict[str, Any]]) -> Dict[str, Any]:
             try:
                 db.refresh()
             except Exception as e:  # noqa: BLE001
-                fail("C09", "refresh_raises", cfg, {"exc": type(e).__name__, "msg": str(e)[:200], "phase": "edit"})
+                fail("*", "refresh_raises", cfg, {"exc": type(e).__name__, "msg": str(e)[:200], "phase": "edit"})
                 continue
             st["edits"] += 1
             layers = {i: db.diag_layers[f"L{i}"] for i in range(1, n + 1)}
@@ -476,7 +478,7 @@ def check(prop: str, tier: str, replay: Optional[str]) -> int:
     stats: Dict[str, int] = {}
     for o in outs:
         for (p, clause, c) in o["fails"]:
-            if p == prop:
+            if p in (prop, "*"):      # a valid configuration that does not load fails whichever property is being checked
                 v.fail(clause, c)
         for k, x in o["stats"].items():
             stats[k] = stats.get(k, 0) + x
